@@ -172,3 +172,12 @@ package syntax
 //@                                        l.Lines[len(l.Lines)-1].StartIdx + 4 * l.Lines[len(l.Lines)-1].Indents <= len(l.Source)) &&
 //@     (l.IndentType != IndentSpace ==> l.Lines[len(l.Lines)-1].StartIdx + l.Lines[len(l.Lines)-1].Indents <= l.cursor + 1 &&
 //@                                        l.Lines[len(l.Lines)-1].StartIdx + l.Lines[len(l.Lines)-1].Indents <= len(l.Source))
+
+//@ method (*PrimeExpr).GetLiteral
+//@   pure
+//@   ensures result == pe.Literal
+
+//@ func ContainsInt
+//@   pure
+//@   ensures result == (exists i int :: 0 <= i && i < len(list) && list[i] == input)
+//@   loop 1 invariant forall i int :: 0 <= i && i <= rangeindex && i < len(list) ==> list[i] != input
